@@ -44,6 +44,14 @@ def sh_cases(seed, big):
     for (a, b) in pairs[::(3 if big else 41)]:
         out.append({"id": "sh%d" % i, "kind": "sh", "sh": (i % 11 == 0), "stages": [[v, cp(a), cp(b)]]})
         i += 1
+    # the command carries environment settings (shown as NAME=value words in front of it), also while the process
+    # environment holds a variable that is not valid UTF-8
+    for odd in (False, True):
+        for env in ([["K", "v"]], [["K", "two words"], ["L", ""]], [["VERIF_X", "it's $HOME *"]], [["K", "a\nb"]]):
+            for args in (["plain"], ["a b", "", "don't"], ["$HOME *", "x\ny"]):
+                out.append({"id": "sh%d" % i, "kind": "sh", "sh": True, "stages": [[v] + [cp(a) for a in args]], "env": env,
+                            "odd_env": odd})
+                i += 1
     # program names that need quoting, empty program name
     for prog in ("", "my prog", "it's", "a|b", "x=1"):
         out.append({"id": "sh%d" % i, "kind": "sh", "stages": [[cp(prog), cp("arg")]]})
@@ -111,6 +119,10 @@ def win_cases(seed, big):
                  [[97, 32, 0]], [[97], [92, 34, 0, 92]], [[97], [98], [32, 32, 32, 0]]):
         out.append({"id": "w%d" % i, "kind": "win", "argv": argv})
         i += 1
+        # ... and what is assembled right after a refusal (on the same thread) is not affected by it
+        for follow in ([[97], [97, 97, 97]], [[98, 32, 99]], [[97], [], [34]]):
+            out.append({"id": "w%d" % i, "kind": "win", "argv": follow})
+            i += 1
     return out
 
 
